@@ -32,4 +32,4 @@ def plan(tier):
     R = 2 if tier == "quick" else 3
     return [Scenario("api-step", step, params={"R": R},
                      cover=["restricted-mode", "refused", "step-0", "step-1", "step-2", "step-3"],
-                     bounds={"regions": "0..%d" % R, "requests": "1 (inductive step)", "geometry": "unbounded reals"})]
+                     nra_mode="oneshot", bounds={"regions": "0..%d" % R, "requests": "1 (inductive step)", "geometry": "unbounded reals"})]
